@@ -39,6 +39,9 @@ package nsqd
 //@   ensures[deferred-ok-iff-registered] kPopErr == nil && timeout != 0 ==> ((result == nil) <==> deferredPushOK == old(deferredPushOK) + 1)
 //@   ensures[deferred-deadline] kPopErr == nil && timeout != 0 ==> lastDeferredItem != nil && lastDeferredItem.Priority == unixNano(lastNow) + timeout && unbox(lastDeferredItem.Value, "*Message") == lastPopped
 //@   ensures[other-counters] c.messageCount == old(c.messageCount) && c.timeoutCount == old(c.timeoutCount) && c.exitFlag == old(c.exitFlag)
+//   (round 4, area B) the immediate re-enqueue is preceded by an exit test made by this call while it held exitMutex, which answered "not exiting"
+//   (atlock(.., "exitMutex"): the test was made after THIS call took the exit lock)
+//@   ensures[enqueued-only-after-exit-test-under-exit-lock] chanPuts != old(chanPuts) ==> r4BExitTests > atlock(r4BExitTests, "exitMutex") && r4BExitTestChan == c && r4BExitTestHeld && !r4BExitTestSaw
 //@   modifies c.inFlightMessages, c.inFlightPQ, mapstore(map[MessageID]*Message), elems(*Message), Message.index, deref(inFlightPqueue), c.requeueCount,
 //@        c.deferredMessages, c.deferredPQ, mapstore(map[MessageID]*pqueue.Item), elems(*pqueue.Item), pqueue.Item.Index,
 //@        lastPopped, kHeapRemoves, chanPuts, chanPutOK, lastChanPutMsg, backendWrites, lastWriteMsg, lastWriteQueue, lastWriteErr, healthSets, lastHealthErr, lastHealthNSQD,
@@ -69,6 +72,11 @@ package nsqd
 //@ lock Channel.RWMutex guards clients, mapsof(map[int64]Consumer)
 //@   invariant[map] self.clients != nil
 //@   invariant[values] forall id int64 :: {self.clients[id]} has(self.clients, id) ==> self.clients[id] != nil
+//   (round 4, area B; C08 "deleting a channel disconnects its consumers", safe under concurrency with subscribes) a section of the
+//   channel lock that ADDS a subscription lies inside an exitMutex section of the same function in which the exit flag was tested
+//   and found 0 (pred in zz_contracts_r4B_verif.go): the subscriber is either in the map before exit() starts - and is closed by
+//   it - or is refused; it is never attached to a channel that has been deleted / closed meanwhile.
+//@   guarantee[joins-only-after-exit-test-under-exit-lock] forall id int64 :: {self.clients[id]} has(self.clients, id) && !old(has(self.clients, id)) ==> r4BSeenRunningUnderExitLock(self)
 
 // The Consumer interface (implemented by *clientV2; contracts of the implementation in
 // zz_contracts_client_verif.go). ASSUMED interface contracts: a Consumer method touches only the
@@ -156,6 +164,11 @@ package nsqd
 //@   ensures[counters-untouched] c.messageCount == old(c.messageCount) && c.requeueCount == old(c.requeueCount) && c.timeoutCount == old(c.timeoutCount)
 //@   modifies c.deferredMessages, c.deferredPQ, mapstore(map[MessageID]*pqueue.Item), elems(*pqueue.Item), pqueue.Item.Index, deref(pqueue.PriorityQueue),
 //@        kDefShifts, kDefPops, chanPuts, chanPutOK, lastChanPutMsg, backendWrites, lastWriteMsg, lastWriteQueue, lastWriteErr, healthSets, lastHealthErr, lastHealthNSQD, chanstore(*Message)
+//   (round 4, area A) the call is recorded for queueScanWorker's contract (ghosts in zz_contracts_r4A_verif.go)
+//@   onreturn r4ADefScans := r4ADefScans + 1
+//@   onreturn r4ADefScanChan := c
+//@   onreturn r4ADefScanAt := t
+//@   onreturn r4ADefScanDirty := result
 //@   loop 0
 //@     invariant[shifted-popped] kDefPops - old(kDefPops) == kDefShifts - old(kDefShifts) && kDefShifts >= old(kDefShifts)
 //@     invariant[popped-requeued] chanPuts - old(chanPuts) == kDefPops - old(kDefPops)
@@ -186,6 +199,11 @@ package nsqd
 //@   modifies c.inFlightMessages, c.inFlightPQ, mapstore(map[MessageID]*Message), elems(*Message), Message.index, deref(inFlightPqueue), c.timeoutCount,
 //@        c.clients, mapstore(map[int64]Consumer), clientV2.InFlightCount, kConsTimedOut, kLastCons,
 //@        kIFShifts, lastPopped, chanPuts, chanPutOK, lastChanPutMsg, backendWrites, lastWriteMsg, lastWriteQueue, lastWriteErr, healthSets, lastHealthErr, lastHealthNSQD, chanstore(*Message)
+//   (round 4, area A) the call is recorded for queueScanWorker's contract (ghosts in zz_contracts_r4A_verif.go)
+//@   onreturn r4AIFScans := r4AIFScans + 1
+//@   onreturn r4AIFScanChan := c
+//@   onreturn r4AIFScanAt := t
+//@   onreturn r4AIFScanDirty := result
 //@   loop 0
 //@     invariant[shifted-popped] kPops - old(kPops) == kIFShifts - old(kIFShifts) && kIFShifts >= old(kIFShifts)
 //@     invariant[popped-requeued] chanPuts - old(chanPuts) == kPops - old(kPops)
@@ -242,6 +260,9 @@ package nsqd
 //@   ensures[discarded-not-persisted] backendWrites == old(backendWrites) && chanPuts == old(chanPuts)
 //@   ensures[nothing-enqueued] sent(c.memoryMsgChan) == old(sent(c.memoryMsgChan)) && sent(c.zoneLocalMsgChan) == old(sent(c.zoneLocalMsgChan)) && sent(c.regionLocalMsgChan) == old(sent(c.regionLocalMsgChan))
 //@   ensures[drained-only] recvd(c.memoryMsgChan) >= old(recvd(c.memoryMsgChan)) && recvd(c.zoneLocalMsgChan) >= old(recvd(c.zoneLocalMsgChan)) && recvd(c.regionLocalMsgChan) >= old(recvd(c.regionLocalMsgChan))
+//   (round 4, area B; C08 "emptying discards everything queued ... at that moment") the drain ended because all three memory queues
+//   were seen empty in one non-blocking select (its `default`); nothing was received or sent on them afterwards
+//@   ensures[memory-queues-seen-empty] drained(c.memoryMsgChan) && drained(c.zoneLocalMsgChan) && drained(c.regionLocalMsgChan)
 //@   ensures[subscriptions-kept] atunlock(c.clients) == atlock(c.clients) && atunlock(len(c.clients)) == atlock(len(c.clients)) && (forall id int64 :: {atunlock(c.clients[id])} (atunlock(has(c.clients, id)) <==> atlock(has(c.clients, id))) && atunlock(c.clients[id]) == atlock(c.clients[id]))
 //@   ensures[emptied-are-subscribers] kConsEmptied > old(kConsEmptied) ==> atunlock(kIsSubscriber(c, now(kLastCons)))
 //@   ensures[only-emptied] kConsClosed == old(kConsClosed) && kConsPaused == old(kConsPaused) && kConsUnpaused == old(kConsUnpaused) && kConsTimedOut == old(kConsTimedOut)
@@ -318,10 +339,10 @@ package nsqd
 //@   ensures[flag-set] old(c.exitFlag) == 0 ==> c.exitFlag == 1
 //@   ensures[delete-announced] old(c.exitFlag) == 0 && deleted ==> kNotifies == old(kNotifies) + 1 && kNotifyNSQD == c.nsqd && dyntype(kNotifyValue) == typetag("*Channel") && unbox(kNotifyValue, "*Channel") == c && kNotifyPersist == !c.ephemeral
 //@   ensures[close-not-announced] old(c.exitFlag) == 0 && !deleted ==> kNotifies == old(kNotifies)
-//@   ensures[closed-are-subscribers] kConsClosed > old(kConsClosed) ==> atunlock(kIsSubscriber(c, now(kLastClosed)))
+//@   ensures[closed-are-subscribers] kConsClosed > old(kConsClosed) ==> atunlock(kIsSubscriber(c, now(kLastClosed)), "RWMutex")
 //   (round 3) completeness, both on the delete and on the close path: EVERY connection subscribed while the channel lock is
 //   held has been closed ("deleting a channel disconnects its consumers"; "channel close: disconnect consumers")
-//@   ensures[every-subscriber-closed] old(c.exitFlag) == 0 ==> (forall id int64 :: {atunlock(c.clients[id])} atunlock(has(c.clients, id)) ==> setin(r3aClosedSet, atunlock(c.clients[id])))
+//@   ensures[every-subscriber-closed] old(c.exitFlag) == 0 ==> (forall id int64 :: {atunlock(c.clients[id], "RWMutex")} atunlock(has(c.clients, id), "RWMutex") ==> setin(r3aClosedSet, atunlock(c.clients[id], "RWMutex")))
 //@   ensures[delete-discards-then-removes-files] old(c.exitFlag) == 0 && deleted ==> kInitPQs == old(kInitPQs) + 1 && kInitPQChan == c && kBqEmpties == old(kBqEmpties) + 1 && kBqEmptyQueue == c.backend &&
 //@        kBqDeletes == old(kBqDeletes) + 1 && kBqDeleteQueue == c.backend && kBqDeleteSawEmpties == kBqEmpties && result == kBqDeleteErr
 //@   ensures[delete-persists-nothing] old(c.exitFlag) == 0 && deleted ==> kBqCloses == old(kBqCloses) && kFlushes == old(kFlushes) && backendWrites == old(backendWrites)
@@ -335,7 +356,7 @@ package nsqd
 //@     invariant[first] old(c.exitFlag) == 0 && c.exitFlag == 1
 //@     invariant[announced] kNotifies == old(kNotifies) + (deleted ? 1 : 0) && (deleted ==> kNotifyNSQD == c.nsqd && dyntype(kNotifyValue) == typetag("*Channel") && unbox(kNotifyValue, "*Channel") == c && kNotifyPersist == !c.ephemeral)
 //@     invariant[closed-are-subscribers] kConsClosed >= old(kConsClosed) && (kConsClosed > old(kConsClosed) ==> kIsSubscriber(c, kLastClosed))
-//@     invariant[subscriptions-kept] c.clients == atlock(c.clients) && len(c.clients) == atlock(len(c.clients)) && (forall id int64 :: {c.clients[id]} (has(c.clients, id) <==> atlock(has(c.clients, id))) && c.clients[id] == atlock(c.clients[id]))
+//@     invariant[subscriptions-kept] c.clients == atlock(c.clients, "RWMutex") && len(c.clients) == atlock(len(c.clients), "RWMutex") && (forall id int64 :: {c.clients[id]} (has(c.clients, id) <==> atlock(has(c.clients, id), "RWMutex")) && c.clients[id] == atlock(c.clients[id], "RWMutex"))
 //@     invariant[visited-closed] forall id int64 :: {c.clients[id]} visited(id) ==> setin(r3aClosedSet, c.clients[id])
 //@     invariant[nothing-else-yet] kInitPQs == old(kInitPQs) && kBqEmpties == old(kBqEmpties) && kBqDeletes == old(kBqDeletes) && kBqCloses == old(kBqCloses) && kFlushes == old(kFlushes) && backendWrites == old(backendWrites) && kConsEmptied == old(kConsEmptied)
 //@     invariant[counters] c.messageCount == old(c.messageCount) && c.requeueCount == old(c.requeueCount) && c.timeoutCount == old(c.timeoutCount)
@@ -372,7 +393,7 @@ package nsqd
 
 // ---- subscribers (C08) -------------------------------------------------------------------------------
 //@ immutable Options.MaxChannelConsumers
-//@ pred kOthersKept(c *Channel, clientID int64) := forall id int64 :: {atunlock(c.clients[id])} id != clientID ==> (atunlock(has(c.clients, id)) <==> atlock(has(c.clients, id))) && atunlock(c.clients[id]) == atlock(c.clients[id])
+//@ pred kOthersKept(c *Channel, clientID int64) := forall id int64 :: {atunlock(c.clients[id], "RWMutex")} id != clientID ==> (atunlock(has(c.clients, id), "RWMutex") <==> atlock(has(c.clients, id), "RWMutex")) && atunlock(c.clients[id], "RWMutex") == atlock(c.clients[id], "RWMutex")
 
 // AddClient: a closing channel refuses; success means the connection is subscribed when the channel lock
 // is released; a refusal changes nothing; the only refusals are "exiting" and "over max-channel-consumers"
@@ -388,11 +409,14 @@ package nsqd
 //@   nochan
 //@   requires c != nil && c.nsqd != nil && client != nil
 //@   ensures[exiting-refused] c.exitFlag == 1 ==> result != nil
-//@   ensures[subscribed] result == nil ==> atunlock(has(c.clients, clientID))
-//@   ensures[refusal-reasons] result != nil && c.exitFlag != 1 ==> curOpts(c.nsqd).MaxChannelConsumers != 0 && atlock(len(c.clients)) >= curOpts(c.nsqd).MaxChannelConsumers && !atlock(has(c.clients, clientID))
-//@   ensures[refused-changes-nothing] result != nil && c.exitFlag != 1 ==> atunlock(len(c.clients)) == atlock(len(c.clients)) && (atunlock(has(c.clients, clientID)) <==> atlock(has(c.clients, clientID)))
+//@   ensures[subscribed] result == nil ==> atunlock(has(c.clients, clientID), "RWMutex")
+//@   ensures[refusal-reasons] result != nil && c.exitFlag != 1 ==> curOpts(c.nsqd).MaxChannelConsumers != 0 && atlock(len(c.clients), "RWMutex") >= curOpts(c.nsqd).MaxChannelConsumers && !atlock(has(c.clients, clientID), "RWMutex")
+//@   ensures[refused-changes-nothing] result != nil && c.exitFlag != 1 ==> atunlock(len(c.clients), "RWMutex") == atlock(len(c.clients), "RWMutex") && (atunlock(has(c.clients, clientID), "RWMutex") <==> atlock(has(c.clients, clientID), "RWMutex"))
 //@   ensures[others-kept] c.exitFlag != 1 ==> kOthersKept(c, clientID)
-//@   ensures[at-most-one-more] c.exitFlag != 1 ==> atunlock(len(c.clients)) == atlock(len(c.clients)) || (atunlock(len(c.clients)) == atlock(len(c.clients)) + 1 && !atlock(has(c.clients, clientID)) && atunlock(c.clients[clientID]) == client)
+//   (round 4, area B) a SUB is accepted only after an exit test made by this call WHILE IT HELD exitMutex answered "not exiting"
+//   (the lock guarantee [joins-only-after-exit-test-under-exit-lock] of Channel.RWMutex says the same for the insertion itself)
+//@   ensures[accepted-only-after-exit-test-under-exit-lock] result == nil ==> r4BExitTests > old(r4BExitTests) && r4BExitTestChan == c && r4BExitTestHeld && !r4BExitTestSaw
+//@   ensures[at-most-one-more] c.exitFlag != 1 ==> atunlock(len(c.clients), "RWMutex") == atlock(len(c.clients), "RWMutex") || (atunlock(len(c.clients), "RWMutex") == atlock(len(c.clients), "RWMutex") + 1 && !atlock(has(c.clients, clientID), "RWMutex") && atunlock(c.clients[clientID], "RWMutex") == client)
 //@   modifies c.clients, mapstore(map[int64]Consumer), lAddCalls
 //   what was asked and what came back, for SUB's contract (ghosts declared in zz_contracts_lcmds_verif.go)
 //@   onreturn lAddCalls := lAddCalls + 1
@@ -407,15 +431,15 @@ package nsqd
 //@ func (c *Channel) RemoveClient(clientID int64)
 //@   props C08 C09 C03
 //@   requires c != nil
-//@   ensures[unsubscribed] c.exitFlag != 1 ==> !atunlock(has(c.clients, clientID))
+//@   ensures[unsubscribed] c.exitFlag != 1 ==> !atunlock(has(c.clients, clientID), "RWMutex")
 //@   ensures[others-kept] c.exitFlag != 1 ==> kOthersKept(c, clientID)
-//@   ensures[len] c.exitFlag != 1 ==> atunlock(len(c.clients)) == atlock(len(c.clients)) - (atlock(has(c.clients, clientID)) ? 1 : 0)
+//@   ensures[len] c.exitFlag != 1 ==> atunlock(len(c.clients), "RWMutex") == atlock(len(c.clients), "RWMutex") - (atlock(has(c.clients, clientID), "RWMutex") ? 1 : 0)
 //@   ensures[deletion-only-if-ephemeral-and-last] onceSpawns != old(onceSpawns) ==> c.ephemeral && onceSpawns == old(onceSpawns) + 1 && onceSpawned == &c.deleter
 //@   ensures[durable-channel-stays] !c.ephemeral ==> onceSpawns == old(onceSpawns)
 //   "once its LAST consumer leaves": decided on the number of subscribers left when the write lock that removed this one is
 //   released - not on a count taken in an earlier critical section (two consumers leaving together would both miss it)
-//@   ensures[deletion-only-if-none-left-at-removal] onceSpawns != old(onceSpawns) ==> atunlock(len(c.clients)) == 0
-//@   ensures[last-one-out-starts-deletion] c.exitFlag != 1 && c.ephemeral && atlock(has(c.clients, clientID)) && atunlock(len(c.clients)) == 0 ==> onceSpawns == old(onceSpawns) + 1
+//@   ensures[deletion-only-if-none-left-at-removal] onceSpawns != old(onceSpawns) ==> atunlock(len(c.clients), "RWMutex") == 0
+//@   ensures[last-one-out-starts-deletion] c.exitFlag != 1 && c.ephemeral && atlock(has(c.clients, clientID), "RWMutex") && atunlock(len(c.clients), "RWMutex") == 0 ==> onceSpawns == old(onceSpawns) + 1
 //@   modifies c.clients, mapstore(map[int64]Consumer), onceSpawns, lRemoveCalls
 //@   onreturn lRemoveCalls := lRemoveCalls + 1
 //@   onreturn lRemoveChan := c
